@@ -7,13 +7,20 @@ MD=$(realpath "$1"); WT=$(realpath "$2")
 BASE=/tmp/mut/baseline_fail.txt
 cd "$WT" || exit 2
 git checkout -q -- . 
-runtests() { /venv/bin/python -m pytest -q -p no:cacheprovider -n 6 --timeout=900 test_autoarray 2>&1 | grep -E "^(FAILED|ERROR)" | sed 's/ - .*//' | sort; }
+runtests() { /venv/bin/python -m pytest -q -p no:cacheprovider -n ${PYTEST_N:-6} --timeout=900 test_autoarray 2>&1 | grep -E "^(FAILED|ERROR)" | sed 's/ - .*//' | sort; }
 if [ ! -s "$BASE" ]; then runtests > "$BASE"; fi
 rundemo() { ( cd "$WT" && PYTHONPATH="$WT" timeout 600 /venv/bin/python "$MD/demo.py" >/dev/null 2>&1 ); echo $?; }
 d0=$(rundemo)
 git apply "$MD/patch.diff" || { echo "{\"applies\": false}" > "$MD/confirm.json"; exit 1; }
 d1=$(rundemo)
 runtests > "$MD/fails_with_patch.txt"
+# tests that share files/array_out.fits race under xdist: re-run any EXTRA failure alone, serially, and drop it if it passes
+extra=$(comm -13 "$BASE" "$MD/fails_with_patch.txt" | sed -E 's/^(FAILED|ERROR) //')
+for t in $extra; do
+  if /venv/bin/python -m pytest -q -p no:cacheprovider -p no:xdist --timeout=900 "$t" >/dev/null 2>&1; then
+    grep -vF "$t" "$MD/fails_with_patch.txt" > "$MD/fails_with_patch.tmp"; mv "$MD/fails_with_patch.tmp" "$MD/fails_with_patch.txt"
+  fi
+done
 same=false; diff -q "$BASE" "$MD/fails_with_patch.txt" >/dev/null && same=true
 git checkout -q -- .
 echo "{\"applies\": true, \"demo_exit_pristine\": $d0, \"demo_exit_patched\": $d1, \"test_failset_equals_baseline\": $same}" > "$MD/confirm.json"
